@@ -50,9 +50,10 @@ BUILTINS = ["gammadet", "Ktrace", "gammaup3", "Kup3", "A2", "Adown3", "gtt", "be
 SHADOW = {"press": "fp", "rho0": "fr0", "eps": "fe", "alpha": "fal"}
 # ... and built-ins that read them
 DEP_POOL = ["press_n", "Stresstrace_n", "enthalpy", "Tdown4", "Ttrace", "rho_n", "Hamiltonian", "Momentumx",
-            "Momentumy", "Momentumz", "dtKtrace", "Stressdown3_n", "fluxup3_n", "Hamiltonian_Escale",
-            "angmomup3_n", "anisotropic_press_down3_n", "conserved_Sdown3", "conserved_D", "conserved_E",
+            "Momentumy", "Momentumz", "dtKtrace", "Stressdown3_n", "Hamiltonian_Escale", "conserved_D",
             "eps", "rho0", "press", "udown4", "hdown4", "gup4"]
+# (fluxup3_n, conserved_Sdown3, angmomup3_n, anisotropic_press_down3_n are pure round-off (1e-17) on
+# these inputs: their value identifies nothing, they are left out)
 EST_BUILTIN = ["max", "min", "mean", "median", "sum", "std", "maxabs", "x0y0z0", "x1y0z1", "x1y1z1"]
 
 
@@ -342,7 +343,11 @@ def split_first(s, sep):
 
 
 def same(a, b):
-    """Exact equality of two cells (arrays or scalars); 1 = exact, 2 = within 1e-12 relative."""
+    """Equality of a cell with a reference (arrays or scalars): 1 = exact, 2 = up to
+    round-off (1e-9 relative, 1e-10 of the reference's largest entry absolute: AurelCore
+    takes different arithmetic paths depending on which keys are in its data, e.g. when a
+    column computed by an earlier call is handed back; values of different rows differ at
+    the 1e-2 level)."""
     a = np.asarray(a)
     b = np.asarray(b)
     if a.shape != b.shape:
@@ -350,8 +355,10 @@ def same(a, b):
     try:
         if np.array_equal(a, b):
             return 1
-        if a.dtype.kind in "fc" and np.allclose(a, b, rtol=1e-12, atol=0.0):
-            return 2
+        if a.dtype.kind in "fc" and b.dtype.kind in "fc":
+            scale = float(np.max(np.abs(b))) if b.size else 0.0
+            if scale > 0 and np.allclose(a, b, rtol=1e-9, atol=1e-10 * scale):
+                return 2
     except Exception:  # noqa
         return 0
     return 0
@@ -855,7 +862,7 @@ def split_check(ctx, sc, real):
         for k in one:
             a, b = np.asarray(one[k]), np.asarray(real[k])
             if a.shape != b.shape or not np.array_equal(a, b):
-                if a.shape == b.shape and a.dtype.kind == "f" and np.allclose(a, b, rtol=1e-12, atol=0):
+                if same(a, b):
                     continue
                 diff = "column %r differs" % k
                 break
@@ -952,7 +959,7 @@ def correspondence(ctx, scs, label):
     cd = ctx.cov.setdefault("correspondence_distribution", {})
     for k, v in dist.items():
         cd[k] = cd.get(k, 0) + v
-    ctx.cov["inexact_matches(1e-12)"] = ctx.cov.get("inexact_matches(1e-12)", 0) + stats.get("inexact", 0)
+    ctx.cov["inexact_matches(roundoff)"] = ctx.cov.get("inexact_matches(roundoff)", 0) + stats.get("inexact", 0)
     ctx.obligation("correspondence: Model/Table vs aurel.over_time, %s (%d scenarios)" % (label, len(scs)),
                    not bad, "; ".join("%s -> %s" % b for b in bad[:3]), kind="correspondence")
     if outs and scs:
